@@ -881,6 +881,10 @@ func (s *sim) checkAccessors(box *stateBox, where string) {
 				r2 := c.HashTreeRoot(tree.GetHashFn())
 				re, derr := decodeState(s.w.spec, forkIndexOfState(c), serializeState(c))
 				s.res.Stat("setter_checks", 1)
+				if derr == nil && re.HashTreeRoot(tree.GetHashFn()) != r2 {
+					// the content changed under the cached hashes: the root reported is not the root of the content
+					s.viol("C05", "state/stale-root-after-setter-argument-reuse/LatestBlockHeader", fmt.Sprintf("%s (%s): after SetLatestBlockHeader(h) and a change of the caller's own *h the state reports root %s, the same content rebuilt from its bytes has root %s", where, forkName(st), r2, re.HashTreeRoot(tree.GetHashFn())))
+				}
 				if got == nil || *got != stored || r1 != r2 || derr != nil || re.HashTreeRoot(tree.GetHashFn()) != r1 {
 					s.viol("C15", "setter-aliases-caller-memory/LatestBlockHeader", fmt.Sprintf("%s (%s): after SetLatestBlockHeader(h) the caller changed its own *h: the getter now returns %+v (stored %+v); root before %s, after %s", where, forkName(st), got, stored, r1, r2))
 					return
@@ -921,6 +925,9 @@ func (s *sim) checkAccessors(box *stateBox, where string) {
 				r2 := c.HashTreeRoot(tree.GetHashFn())
 				b2 := serializeState(c)
 				s.res.Stat("setter_checks", 1)
+				if re, derr := decodeState(s.w.spec, forkIndexOfState(c), b2); derr == nil && re.HashTreeRoot(tree.GetHashFn()) != r2 {
+					s.viol("C05", "state/stale-root-after-setter-argument-reuse/LatestExecutionPayloadHeader", fmt.Sprintf("%s (%s): after SetLatestExecutionPayloadHeader(h) and a change of the caller's own *h the state reports root %s, the same content rebuilt from its bytes has another root", where, forkName(st), r2))
+				}
 				if r1 != r2 || !bytes.Equal(b1, b2) {
 					s.viol("C15", "setter-aliases-caller-memory/LatestExecutionPayloadHeader", fmt.Sprintf("%s (%s): after SetLatestExecutionPayloadHeader(h) the caller changed its own *h and the state changed with it (bytes equal: %v, root equal: %v)", where, forkName(st), bytes.Equal(b1, b2), r1 == r2))
 					return
